@@ -42,7 +42,12 @@ def lowered_has(p):
     return any_input_has(q)
 
 
+P_DIGIT_ANY = pred(lambda c: c.isdigit() or c.isdecimal() or c.isnumeric())
+
 CLASSES = {
+    # a title whose first surviving character is a digit gives a package name that starts with one; stated over the
+    # input as "contains a digit-like character" (coarser than the defect, which keeps the exclusion sound)
+    "has_digit": any_input_has(P_DIGIT_ANY),
     # characters matched by \w (so kept by utils.sanitize) that are not identifier characters, e.g. '²', '⓵'
     "w_not_xid": lowered_has(P_W_NOT_XID),
     # skip_snake_case=True keeps the delimiters '.', ' ', '-' that sanitize deliberately preserves
